@@ -23,12 +23,8 @@
    the filters and update documents: Python dicts; the hypothesis is used by the proof, no
    counterexample without it is known).  C13_history_flat_partial proves ALL of c13_ok, (1)-(4),
    under one more screen, c13_flat (Proofs/C13Match.v): the equality-only filters of
-   update_one/update_many upserts have dot-free keys.  What is still missing for the full
-   target is (4) for equality-only filters with dotted keys ("a.b": 1): the value that
-   expand_dots / discard_ops / the chain of update operators / normalisation leave at a
-   nested path, and the matcher's candidates along that path (for a dot-free key these are an
-   assoc lookup; the matcher side - a literal or {$eq: v} against the value itself - is
-   proved for any document, Proofs/C13Match.v matches_eq_fields).  No counterexample is known.
+   update_one/update_many upserts have dot-free keys.  (4) for equality-only filters with DOTTED keys was missing here at first; it is now proved too:
+   see the UPDATE comment and C13_history_args_partial at the end of this file.
    Without the screen (3) and (4) are false on the model (Refuted/C13.v part B); inside the
    screen two further classes were found and are now bits of c13_reasons (part C):
      32 = the update addresses a path strictly below _id ({$set: {"_id.x": 1}}): (3) fails;
@@ -145,3 +141,135 @@ Example C13_flat_premises_satisfiable :
   = [1; 1; 2; 3; 4; 4; 5; 6; 6; 6]%nat.
 Proof. exact c13_ex_history3. Qed.
 Print Assumptions C13_flat_premises_satisfiable.
+
+(* ------------------------------------------------------------------------------------------
+   UPDATE (Proofs/C13Dotted.v): clause (4) for DOTTED filter keys.  This supersedes the
+   paragraph "What is still missing" of the header: (4) is now proved for every equality-only
+   filter inside the screen c13_undecided - keys such as "a.b": 1, "a.b.c": {$eq: 1}, several
+   keys below one head ({"a.b": 1, "a.c": 2}), numeric components ("a.0"), null / array / date
+   literals - and for every operator update whose paths overlap no filter key (the only case
+   in which c13_upsert_ok demands the clause), including updates that write below the same
+   head ({$set: {"a.c": 5}} next to the filter key "a.b").  The value at a key's path is
+   followed with `dget` (descent through sub-documents): expand_dots puts the operand there
+   (no key is a prefix of another) and every path of its result is comparable with a filter
+   key, so the documents along the path have no '$' key and discard_ops turns the operand into
+   its literal; the update is a chain of local rewrites along paths not comparable with the
+   key, which keep the value (C13_update_frame); insert_doc appends at most _id and normalises;
+   the matcher then has the single candidate Some literal (C13_equality_fields_match_dotted).
+   No counterexample was found among the probes (Proofs/C13DottedExamples.v), no guard bit was
+   added, and no further screen is needed: c13_dotted_ok is the constant true (it is kept for
+   the shape of the statement), so C13_history_wf_partial is the full target C13_history with
+   the one extra premise of C13_history_id_partial, well-formed arguments (op_wf), and
+   C13_history_args_partial weakens that premise to a decidable screen on the operations,
+   c13_wf_args: the filter and the update / replacement document of every UPSERT have no
+   repeated key in any sub-document (true of every Python dict).  That premise cannot be
+   dropped from clause (4): Refuted/C13.v part D (a filter literal holding a sub-document with
+   a repeated key is not == to itself, so the upserted document does not match; model-only
+   artefact, no guard bit added).  So C13_history as stated in the header is false on the
+   model, and C13_history_args_partial is its repaired form. *)
+From Verif.Proofs Require Import C13Dotted C13DottedExamples.
+
+Theorem C13_history_dotted_partial : forall (pre5 : bool) (ops : list op),
+  Forall C02History.op_wf ops ->
+  c13_reasons ops (model_obs pre5 empty_coll ops) = 0 ->
+  c13_undecided ops = false ->
+  c13_dotted_ok ops = true ->
+  c13_ok ops (model_obs pre5 empty_coll ops) = true.
+Proof. exact c13_history_dotted. Qed.
+Print Assumptions C13_history_dotted_partial.
+
+(* the new screen is implied by the old one (it is vacuous) *)
+Theorem C13_flat_implies_dotted : forall ops, c13_flat ops = true -> c13_dotted_ok ops = true.
+Proof. exact c13_flat_dotted. Qed.
+Print Assumptions C13_flat_implies_dotted.
+
+(* all four clauses from the guard, the syntactic screen and well-formed arguments.
+   The full statement C13_history (not proved) is the same without the premise
+   Forall C02History.op_wf ops. *)
+Theorem C13_history_wf_partial : forall (pre5 : bool) (ops : list op),
+  Forall C02History.op_wf ops ->
+  c13_reasons ops (model_obs pre5 empty_coll ops) = 0 ->
+  c13_undecided ops = false ->
+  c13_ok ops (model_obs pre5 empty_coll ops) = true.
+Proof. exact c13_history_wf. Qed.
+Print Assumptions C13_history_wf_partial.
+
+(* the same from a decidable premise on the operations instead of op_wf: the arguments of the
+   upserts are well-formed (c13_wf_args, Proofs/C13Dotted.v).  This is the full target
+   C13_history plus that one premise, which cannot be dropped (Refuted/C13.v part D). *)
+Theorem C13_history_args_partial : forall (pre5 : bool) (ops : list op),
+  c13_reasons ops (model_obs pre5 empty_coll ops) = 0 ->
+  c13_undecided ops = false ->
+  c13_wf_args ops = true ->
+  c13_ok ops (model_obs pre5 empty_coll ops) = true.
+Proof. exact c13_history_args. Qed.
+Print Assumptions C13_history_args_partial.
+
+Theorem C13_op_wf_implies_args : forall ops,
+  Forall C02History.op_wf ops -> c13_wf_args ops = true.
+Proof. exact op_wf_args. Qed.
+Print Assumptions C13_op_wf_implies_args.
+
+(* the key step of clause (4) without the premise c13_flat_filter: in a state without TTL
+   index, an operator-update upsert that matches nothing and succeeds stores (as the last
+   document) one that its own equality-only filter matches, provided the update writes no
+   path overlapping the filter's *)
+Theorem C13_upsert_matches_filter_dotted : forall pre5 c ffs u multi c' v kl d,
+  noTTL c -> wf_value (VDoc ffs) = true -> wf_value u = true ->
+  c13_writes_id u = false -> c13_odd_filter (VDoc ffs) = false ->
+  c13_id_subfield u = false -> c13_null_id_filter (VDoc ffs) = false ->
+  first_key_dollar u = Some true ->
+  scan (patch (VDoc ffs)) (docs c) = Ok [] ->
+  update pre5 c (VDoc ffs) u multi true = (c', Ok v) ->
+  equality_only (VDoc ffs) = true ->
+  existsb (fun p => existsb (fun q => paths_overlap p (fst q)) ffs) (update_paths u) = false ->
+  last (docs c') (VNull, VNull) = (kl, d) ->
+  match filter_applies (patch (VDoc ffs)) d with Ok b => b | Err _ => true end = true.
+Proof. exact upsert_last_clause_d. Qed.
+Print Assumptions C13_upsert_matches_filter_dotted.
+
+(* the frame of an operator update: the value found at a path by descending through
+   sub-documents (dget) is kept when no path the update addresses is a prefix of, equal to, or
+   an extension of that path (cmp) *)
+Theorem C13_update_frame : forall spec u wi now d d' q v,
+  first_key_dollar u = Some true -> wf_value u = true -> wf_value d = true ->
+  apply_update spec u wi now d = Ok d' ->
+  (forall p, In p (UpdateLaws.addressed u) -> cmp p q = false) ->
+  dget q d = Some v -> dget q d' = Some v.
+Proof. exact apply_update_frame. Qed.
+Print Assumptions C13_update_frame.
+
+(* the matcher side for any key: a filter made of equality fields is matched (or raises) by a
+   document in which each field's literal is the single candidate along the field's path; and
+   that is the case when the path descends through sub-documents to the literal *)
+Theorem C13_equality_fields_match_dotted : forall d sfs,
+  (forall k x, In (k, x) sfs ->
+     starts_dollar k = false /\ k <> "" /\ eq_leaf x = true /\
+     wf_value (lit x) = true /\ candidates (split_dots k) d = [Some (lit x)]) ->
+  ok_or_err (matches (parse_filter (VDoc sfs)) d).
+Proof. exact matches_eq_fields_c. Qed.
+Print Assumptions C13_equality_fields_match_dotted.
+
+Theorem C13_candidates_dotted : forall q fs v,
+  q <> [] -> (forall p, In p q -> p <> "") -> dget q (VDoc fs) = Some v ->
+  candidates q (VDoc fs) = [Some v].
+Proof. exact cand_dget. Qed.
+Print Assumptions C13_candidates_dotted.
+
+(* the premises hold on a non-trivial history outside c13_flat (c13_ex_ops4,
+   Proofs/C13DottedExamples.v): ten operations, eight upserts, dotted equality-only filters
+   with shared heads, {$eq: v}, null, array and date literals, a numeric component, updates
+   writing sibling paths *)
+Example C13_dotted_premises_satisfiable :
+  Forall C02History.op_wf c13_ex_ops4 /\
+  c13_reasons c13_ex_ops4 (model_obs false empty_coll c13_ex_ops4) = 0 /\
+  c13_undecided c13_ex_ops4 = false /\
+  c13_dotted_ok c13_ex_ops4 = true /\
+  c13_wf_args c13_ex_ops4 = true /\
+  c13_flat c13_ex_ops4 = false /\
+  modelled false empty_coll c13_ex_ops4 = true /\
+  c13_ok c13_ex_ops4 (model_obs false empty_coll c13_ex_ops4) = true /\
+  map (fun ob => List.length (snd (fst ob))) (model_obs false empty_coll c13_ex_ops4)
+  = [1; 1; 2; 3; 3; 4; 5; 6; 7; 7]%nat.
+Proof. exact c13_ex_history4. Qed.
+Print Assumptions C13_dotted_premises_satisfiable.
